@@ -16,7 +16,6 @@ ASSUMPTIONS = [
     "float sums are permutation invariant only up to rounding: parameters and scale/bs/poly values are "
     "compared with relative tolerance 1e-9",
 ]
-LEVEL = "translation_validation"
 TRUSTED = ["pandas positional access (.values), np.unique, np.mean/std/percentile"]
 
 CORPUS = ["y ~ f + x", "y ~ scale(x) + bs(z, df=4)", "y ~ center(x):f + (x | g)", "yc ~ co + cu",
